@@ -5,6 +5,7 @@
 -/
 import BB.Model.Workers
 import BB.Core.Fair
+import BB.Proofs.WorkersFifo
 
 namespace BB.Props.C14
 open BB.Workers BB.LTS
@@ -509,5 +510,34 @@ example : ∃ k, 2 ≤ k ∧ 2 ∉ (demoRun.st k).queue ∧ (2 ∈ running (demo
 /-! non-vacuity: three callers with decreasing counts; the queue drains with one worker left -/
 example : (sys.run sys.init [.call 1 3, .take 0, .call 2 1, .call 3 1, .exit 1, .exit 1, .finish 0, .take 0]).map
     (fun s => (s.queue, s.workers, s.done, s.maxReq)) = some ([3], [some 2], [1], 3) := by decide
+
+/-! ### FIFO order (observer of `BB/Proofs/WorkersFifo.lean`) -/
+
+/-- the observer is passive: the wrapped system has exactly the runs of `sys` -/
+theorem fifo_observer_is_passive :
+    (∀ o, Reach osys o → Reach sys o.st) ∧ (∀ s, Reach sys s → ∃ o, Reach osys o ∧ o.st = s) := by
+  refine ⟨oreach_proj, ?_⟩
+  intro s hr
+  induction hr with
+  | init => exact ⟨osys.init, Reach.init, rfl⟩
+  | step _ hs ih =>
+    obtain ⟨o, hr', rfl⟩ := ih
+    obtain ⟨o', e1, e2⟩ := ostep_total o _ _ hs
+    exact ⟨o', Reach.step hr' e1, e2⟩
+
+/-- JOBS ARE TAKEN IN THE ORDER THEY WERE CALLED: in every reachable state the sequence of calls is the sequence of takes followed
+    by the queue — whatever counts the callers pass, however workers come and go -/
+theorem jobs_taken_in_call_order (o : OSt) (hr : Reach osys o) : o.called = o.taken ++ o.st.queue := fifo_inv o hr
+
+/-- … hence no job is overtaken: if job a was called before job b and b has been taken, a has been taken too, earlier -/
+theorem never_overtaken (o : OSt) (hr : Reach osys o) (i j : Nat) (hij : i < j) (hj : j < o.taken.length) :
+    o.called[i]? = o.taken[i]? ∧ o.called[j]? = o.taken[j]? := by
+  have h := fifo_inv o hr
+  rw [h]
+  exact ⟨List.getElem?_append_left (by omega), List.getElem?_append_left hj⟩
+
+/-- non-vacuity: three calls with different counts, two workers; takes happen in call order -/
+example : (osys.run osys.init [.call 10 1, .call 11 2, .take 1, .call 12 1, .finish 1, .exit 1, .take 0]).map
+    (fun o => (o.called, o.taken, o.st.queue)) = some ([10, 11, 12], [10, 11], [12]) := by decide
 
 end BB.Props.C14
